@@ -11,8 +11,9 @@ from fractions import Fraction
 import numpy as np
 from . import common
 
-BRIDGE = 'NumqiProofs/EntangleBridge.lean'      # C05 <-> C06 bridge theorems: imports ent2's NumqiProofs/BoundaryLemmas.lean read-only
-THEOREM_FILES = ['NumqiProps/C05.lean', 'NumqiProofs/DecisionC05.lean', 'NumqiProofs/EntangleAccept.lean', BRIDGE]
+# C05 <-> C06 bridge theorems and the extension-SDP formulation theorems import ent2's NumqiProofs/BoundaryLemmas.lean read-only
+BRIDGE = ['NumqiProofs/EntangleBridge.lean', 'NumqiProps/C05SymExt.lean']
+THEOREM_FILES = ['NumqiProps/C05.lean', 'NumqiProofs/DecisionC05.lean', 'NumqiProofs/EntangleAccept.lean'] + BRIDGE
 LEVEL = 'proof'
 RULE = ('correspondence ops: Gaussian-integer Hermitian matrices (random, diagonal, unit, sparse) for every dimension list in '
         '(2,2),(2,3),(3,2),(3,3),(2,4),(2,2,2),(2,3,2),(3,2,2),(2,2,2,2) through is_ppt / is_generalized_ppt / check_reduction_witness / '
@@ -257,14 +258,16 @@ def render_thresholds(T):
 def _bridge_prerequisite(ctx):
     """the bridge module depends on a file of another property (C06); if that file does not build at the moment (its owner is editing
     it) the bridge obligations are left out of this run - with a note - instead of being blamed on C05"""
-    if BRIDGE not in THEOREM_FILES:
-        THEOREM_FILES.append(BRIDGE)
+    for f in BRIDGE:
+        if f not in THEOREM_FILES:
+            THEOREM_FILES.append(f)
     ok, _ = common.lake_build(['NumqiProofs.BoundaryLemmas'])
     if not ok:
-        THEOREM_FILES.remove(BRIDGE)
+        for f in BRIDGE:
+            THEOREM_FILES.remove(f)
         if ctx is not None:
             ctx.note('NumqiProofs/BoundaryLemmas.lean (C06) does not build at the moment: the C05<->C06 bridge theorems (symExt_isSymExt, sep_subset_kext, '
-                     'ptB_models_agree) were not audited in this run')
+                     'ptB_models_agree) and the extension-SDP formulation theorems (NumqiProps/C05SymExt.lean) were not audited in this run')
 
 
 def translate(ctx):
@@ -546,6 +549,127 @@ def gen_ops(ctx):
     return ops
 
 
+# ---------------------------------------------------------------------------------------------------------------
+# the formulation of the naive symmetric-extension SDP (solver = contract): cvxpy.Variable replaced by an integer Hermitian constant,
+# cvxpy.Problem captured instead of solved, every constraint's left-hand side compared exactly with the model
+# ---------------------------------------------------------------------------------------------------------------
+@contextlib.contextmanager
+def patched(obj, name, val):
+    old = getattr(obj, name)
+    setattr(obj, name, val)
+    try:
+        yield
+    finally:
+        setattr(obj, name, old)
+
+
+def capture_naive_sdp(X, rho, dim, kext, index_kind='2d'):
+    """run is_ABk_symmetric_ext_naive with `cvxX := X` (constant) and return the captured constraints"""
+    import cvxpy, numqi
+    cap = {}
+
+    class FakeProblem:
+        value = 0.0
+
+        def __init__(self, obj, cons):
+            cap['cons'] = list(cons)
+
+        def solve(self, *a, **kw):
+            return 0.0
+    with patched(cvxpy, 'Variable', lambda shape, hermitian=False, **kw: cvxpy.Constant(X)), patched(cvxpy, 'Problem', FakeProblem):
+        ok, val = numqi.entangle.symext.is_ABk_symmetric_ext_naive(rho, dim, kext, index_kind=index_kind)
+    return cap['cons'], ok, val
+
+
+def sx_constraint_sides(cons):
+    """(kind, lhs, rhs) for every captured constraint; the PSD constraint has kind 'psd' and lhs = the matrix required to be PSD"""
+    import cvxpy
+    out = []
+    for c in cons:
+        if isinstance(c, cvxpy.constraints.psd.PSD):
+            out.append(('psd', np.asarray(c.args[0].value), None))
+        elif isinstance(c, cvxpy.constraints.zero.Equality):
+            out.append(('eq', np.asarray(c.args[0].value), np.asarray(c.args[1].value)))
+        else:
+            out.append((type(c).__name__, None, None))
+    return out
+
+
+def sx_ops(ctx, rng):
+    """ops + implementation lines for the symmetric-extension formulation tie"""
+    import numqi
+    from numqi.entangle.symext import get_symmetric_extension_index_list
+    ops, impl = [], []
+    cases = [((2, 2), 2), ((2, 2), 3), ((2, 3), 2), ((3, 2), 2), ((3, 2), 3)] if ctx.quick() else \
+            [((2, 2), 2), ((2, 2), 3), ((2, 2), 4), ((2, 3), 2), ((2, 3), 3), ((3, 2), 2), ((3, 2), 3), ((3, 2), 4), ((3, 3), 2)]
+    for (dA, dB), kext in cases:
+        N = dA * dB ** kext
+        # (a) the index arrays, both kinds
+        def fi():
+            l2 = get_symmetric_extension_index_list(dA, dB, kext, kind='2d')
+            l1 = get_symmetric_extension_index_list(dA, dB, kext, kind='1d')
+            return '|'.join(','.join(str(int(v)) for v in x) for x in l2) + '#' + '|'.join(','.join(str(int(v)) for v in x) for x in l1)
+        ops.append(f'C05 sxidx {dA} {dB} {kext}'); impl.append(guarded(fi)); ctx.count('sx-index-arrays')
+        # (b) constraint left-hand sides on a random Gaussian-integer Hermitian "variable" (both index kinds must give the same constraints)
+        for rep in range(1 if ctx.quick() and N > 20 else 2):
+            G = rand_gint_matrix(rng, N, True, density=1.0 if N <= 16 else 0.3)
+            rho_dummy = rand_gint_matrix(rng, dA * dB, True)
+            def fc():
+                outs = []
+                for kind in ('2d', '1d'):
+                    cons, ok, val = capture_naive_sdp(G, rho_dummy, (dA, dB), kext, kind)
+                    sides = sx_constraint_sides(cons)
+                    kinds = [k for k, _, _ in sides]
+                    want = ['psd', 'eq', 'eq'] + ['eq'] * (2 if kext > 2 else 1)
+                    if kinds != want:
+                        return f'constraint-structure:{kinds}'
+                    if not np.array_equal(sides[0][1], G) or ok is not True or not np.array_equal(val, G):
+                        return 'variable-not-used-as-is'
+                    if complex(sides[1][2]) != 1 or not np.array_equal(sides[2][2], rho_dummy):
+                        return 'right-hand-sides'
+                    if any(not np.array_equal(s[2], G) for s in sides[3:]):
+                        return 'permutation-rhs-not-X'
+                    outs.append(gi(complex(np.asarray(sides[1][1]).reshape(-1)[0])) + '|' + dump(sides[2][1]) + '|' + '|'.join(dump(s[1]) for s in sides[3:]))
+                return outs[0] if outs[0] == outs[1] else 'index-kinds-differ'
+            ops.append(f'C05 sxcon {dA} {dB} {kext} {ents(G)}'); impl.append(guarded(fc)); ctx.count('sx-constraints')
+        # (c) the separable witness of the model, fed into the captured constraints: they must be satisfied exactly
+        nterm = int(rng.integers(1, 4))
+        terms = []
+        for _ in range(nterm):
+            w = int(rng.integers(1, 4))
+            a = rand_gint_matrix(rng, 1, False, -2, 2).reshape(-1)[0] * 0 + (rng.integers(-2, 3, size=dA) + 1j * rng.integers(-2, 3, size=dA))
+            b = rng.integers(-2, 3, size=dB) + 1j * rng.integers(-2, 3, size=dB)
+            if not np.any(a): a[0] = 1
+            if not np.any(b): b[0] = 1
+            terms.append((w, a, b))
+        tstr = '|'.join(f'{w},0:' + ';'.join(f'{int(z.real)},{int(z.imag)}' for z in a) + ':' + ';'.join(f'{int(z.real)},{int(z.imag)}' for z in b) for w, a, b in terms)
+        W = np.zeros((N, N), dtype=np.complex128)
+        R = np.zeros((dA * dB, dA * dB), dtype=np.complex128)
+        for w, a, b in terms:
+            v = a
+            for _ in range(kext):
+                v = np.kron(v, b)
+            W += w * np.outer(v, v.conj())
+            ab = np.kron(a, b)
+            R += w * (np.vdot(b, b).real ** (kext - 1)) * np.outer(ab, ab.conj())
+        def fw():
+            cons, ok, val = capture_naive_sdp(W, R, (dA, dB), kext, '2d')
+            sides = sx_constraint_sides(cons)
+            # satisfied exactly (homogeneous form: the witness is unnormalised, trace(W) stands for 1): every equality lhs == rhs
+            for kk, (kd, lhs, rhs) in enumerate(sides):
+                if kd == 'psd':
+                    if np.linalg.eigvalsh(lhs)[0] < -1e-9 * max(1.0, np.abs(lhs).max()):
+                        return 'witness-not-psd'
+                elif kk == 1:
+                    if abs(complex(np.asarray(lhs).reshape(-1)[0]) - np.trace(R)) > 0:
+                        return 'trace-of-witness-differs-from-trace-of-state'
+                elif not np.array_equal(lhs, rhs):
+                    return f'constraint-{kk}-violated-by-the-separable-witness'
+            return dump(W) + '|' + dump(R)
+        ops.append(f'C05 sxwit {dA} {dB} {kext} {tstr}'); impl.append(guarded(fw)); ctx.count('sx-witness')
+    return ops, impl
+
+
 def correspondence(ctx):
     T = extract_thresholds()
     ops = gen_ops(ctx)
@@ -555,10 +679,13 @@ def correspondence(ctx):
         # the malformed stream: the driver rejects, the implementation asserts / raises
         r = impl_op(op) if _wellformed(op) else 'bad-op'
         impl.append(r)
+    rng2 = np.random.default_rng(ctx.np_seed + 5)
+    sops, simpl = sx_ops(ctx, rng2)
+    ops += sops; impl += simpl
     model = common.run_model([model_line(op, T) for op in ops])
     def nontrivial(op, out):
         t = op.split(' ')
-        if t[1] == 'gpptlist' or out == 'bad-op':
+        if t[1] in ('gpptlist', 'sxidx', 'sxcon', 'sxwit') or out == 'bad-op':
             return True
         e = t[-1].split(';')
         N = int(round(math.sqrt(len(e))))
@@ -574,6 +701,8 @@ def _wellformed(op):
     t = op.split(' ')
     if t[1] == 'gpptlist':
         return t[2].isdigit()
+    if t[1] in ('sxidx', 'sxcon', 'sxwit'):
+        return True
     if t[1] not in ('ppt', 'red', 'gppt', 'swap', 'ptb', 'vppt', 'vred', 'vgppt', 'vswap'):
         return False
     try:
@@ -935,6 +1064,36 @@ def probe(ctx):
                          dict(rho_desc(rho, dim, 'basis-product'), threshold=0))
             else:
                 ctx.probe_ok(('gppt-boundary', dim, k))
+    # formulation of the naive extension SDP, directly on the real code (no solving): exact extension satisfies every captured
+    # constraint, a non-symmetric matrix violates a permutation constraint, for both index kinds
+    for (dA, dB), kext in ([((2, 2), 2), ((2, 2), 3), ((2, 3), 2), ((3, 2), 3)] if ctx.quick() else
+                           [((2, 2), 2), ((2, 2), 3), ((2, 2), 4), ((2, 3), 2), ((2, 3), 3), ((3, 2), 2), ((3, 2), 3), ((3, 3), 2), ((3, 3), 3)]):
+        ctx.count('probe-symext-formulation')
+        safely(ctx, 'symext-formulation:raises', dict(dimA=dA, dimB=dB, kext=kext), lambda: check_sx_formulation(ctx, dA, dB, kext, dict()))
+    # naive SDP vs irrep-block SDP (numerically derived bases: a contract): the two verdicts must agree
+    naive_plan = [((2, 2), 2)] if ctx.quick() else [((2, 2), 2), ((2, 2), 3), ((2, 3), 2), ((3, 2), 2)]
+    for dim, kext in naive_plan:
+        states = []
+        for kind in (['complex', 'basis'] if ctx.quick() else ['complex', 'basis', 'repeated', 'real', 'parallel']):
+            rho, dsc = make_separable(rng, dim, int(rng.integers(1, 5)), kind)
+            states.append((rho, dsc, f'separable/{kind}', True))
+        if dim[0] == dim[1]:
+            d = dim[0]
+            for a in ([1.0] if ctx.quick() else [-1.0, 0.0, 1.0 / d, 0.9, 1.0]):
+                states.append((numqi.state.Werner(d, a).astype(np.complex128), rho_desc(numqi.state.Werner(d, a), dim, f'Werner({d},{a})'), f'Werner({d},{a})', None))
+            for a in ([] if ctx.quick() else [0.0, 1.0 / (d + 1), 0.8, 1.0]):
+                states.append((numqi.state.Isotropic(d, a).astype(np.complex128), rho_desc(numqi.state.Isotropic(d, a), dim, f'Isotropic({d},{a})'), f'Isotropic({d},{a})', None))
+        for rho, dsc, tag, expect in states:
+            ctx.count('probe-symext-naive-vs-irrep')
+            r1 = guarded(lambda: bool(numqi.entangle.symext.is_ABk_symmetric_ext_naive(rho, dim, kext)[0]))
+            r2 = guarded(lambda: bool(numqi.entangle.is_ABk_symmetric_ext(rho, dim, kext)))
+            rp = dict(dsc, kext=kext, use_boson=False, use_ppt=False, naive=str(r1), irrep=str(r2))
+            if expect is True and r1 is not True:
+                ctx.fail('is_ABk_symmetric_ext_naive:separable-rejected', f'is_ABk_symmetric_ext_naive(kext={kext}) returned {r1} for a separable state, dim={dim} [{tag}]', rp)
+            elif r1 != r2:
+                ctx.fail('is_ABk_symmetric_ext:naive-vs-irrep', f'naive SDP says {r1}, irrep-block SDP says {r2} (kext={kext}, dim={dim}) [{tag}]', rp)
+            else:
+                ctx.probe_ok(('naive-vs-irrep', dim, kext, tag))
     # symmetric / bosonic extension SDPs (slow solvers: budgeted)
     sdp_budget = 30.0 if ctx.quick() else 600.0
     plan = [((2, 2), 2, False, False), ((2, 2), 2, True, False), ((2, 2), 2, False, True), ((2, 2), 3, False, False), ((2, 2), 3, True, False)]
@@ -980,6 +1139,42 @@ def statements_not_proved(files):
     return out
 
 
+def check_sx_formulation(ctx, dA, dB, kext, rp):
+    """direct statement on the real code (independent of the Lean model): the constraints captured from is_ABk_symmetric_ext_naive are
+    satisfied by the explicit extension of a product state, and only permutation-invariant matrices satisfy the permutation constraints"""
+    rng = np.random.default_rng(12345)
+    N = dA * dB ** kext
+    a = rng.normal(size=dA) + 1j * rng.normal(size=dA); a /= np.linalg.norm(a)
+    b = rng.normal(size=dB) + 1j * rng.normal(size=dB); b /= np.linalg.norm(b)
+    v = a
+    for _ in range(kext):
+        v = np.kron(v, b)
+    W = np.outer(v, v.conj())
+    rho = np.outer(np.kron(a, b), np.kron(a, b).conj())
+    ok = True
+    for kind in ('2d', '1d'):
+        cons, _, _ = capture_naive_sdp(W, rho, (dA, dB), kext, kind)
+        for kk, (kd, lhs, rhs) in enumerate(sx_constraint_sides(cons)):
+            if kd == 'eq' and np.abs(np.asarray(lhs) - np.asarray(rhs)).max() > 1e-12:
+                ctx.fail('is_ABk_symmetric_ext_naive:formulation', f'constraint #{kk} (index_kind={kind}) of the naive SDP is violated by the exact extension '
+                         f'a⊗b^⊗{kext} of a product state (residual {np.abs(np.asarray(lhs) - np.asarray(rhs)).max():.3g}): the SDP would reject a separable state',
+                         dict(rp, dimA=dA, dimB=dB, kext=kext, index_kind=kind, constraint=kk)); ok = False
+        # a matrix that is not invariant under exchanging two copies must violate some permutation constraint
+        u = a
+        bs = [b] + [rng.normal(size=dB) + 1j * rng.normal(size=dB) for _ in range(kext - 1)]
+        for x in bs:
+            u = np.kron(u, x)
+        Wn = np.outer(u, u.conj())
+        cons, _, _ = capture_naive_sdp(Wn, rho, (dA, dB), kext, kind)
+        viol = [np.abs(np.asarray(l) - np.asarray(r)).max() for kd, l, r in sx_constraint_sides(cons)[3:]]
+        if max(viol) < 1e-6:
+            ctx.fail('is_ABk_symmetric_ext_naive:formulation', f'the permutation constraints (index_kind={kind}) accept a matrix that is not symmetric under the copies',
+                     dict(rp, dimA=dA, dimB=dB, kext=kext, index_kind=kind)); ok = False
+    if ok:
+        ctx.probe_ok(('sx-formulation', dA, dB, kext))
+    return ok
+
+
 def search(ctx, hints):
     """a proof obligation or the correspondence broke and the probe found nothing: evaluate the index-layer statements with the
     independent oracles on exactly the disagreeing inputs, and the verdict statements on separable states built around them"""
@@ -989,6 +1184,11 @@ def search(ctx, hints):
             continue
         if t[1] == 'gpptlist':
             check_index_layer(ctx, np.eye(4, dtype=np.complex128), (2, 2), 'hint-gpptlist', dict(op=d['op']))
+            continue
+        if t[1] in ('sxidx', 'sxcon', 'sxwit'):
+            safely(ctx, 'symext-formulation:raises', dict(op=d['op'][:200]), lambda: check_sx_formulation(ctx, int(t[2]), int(t[3]), int(t[4]), dict(op=d['op'][:200])))
+            if ctx.failures:
+                return
             continue
         dim = tuple(int(x) for x in t[2].split(';'))
         N = int(np.prod(dim))
@@ -1025,7 +1225,10 @@ def replay(ctx, payload):
         elif 'kext' in rp:
             import numqi
             r = guarded(lambda: bool(numqi.entangle.is_ABk_symmetric_ext(rho, dim, rp['kext'], use_ppt=rp['use_ppt'], use_boson=rp['use_boson'])))
-            if r is not True:
+            r1 = guarded(lambda: bool(numqi.entangle.symext.is_ABk_symmetric_ext_naive(rho, dim, rp['kext'])[0])) if 'naive' in rp else r
+            if 'naive' in rp and r1 != r:
+                ctx.fail(payload.get('key'), f'naive SDP says {r1}, irrep-block SDP says {r}', rp)
+            elif 'naive' not in rp and r is not True:
                 ctx.fail(payload.get('key'), f'is_ABk_symmetric_ext returned {r}', rp)
         elif 'weights' in rp:
             check_bell_diag(ctx, np.array(rp['weights']))
@@ -1036,6 +1239,8 @@ def replay(ctx, payload):
                 ctx.fail(payload.get('key'), f'is_generalized_ppt(threshold={rp["threshold"]}) returned {r}', rp)
         else:
             check_state(ctx, rho, dim, 'replay', rp, meas)
+    elif 'dimA' in rp and 'kext' in rp:
+        safely(ctx, 'symext-formulation:raises', rp, lambda: check_sx_formulation(ctx, rp['dimA'], rp['dimB'], rp['kext'], dict()))
     elif 'op' in rp:
         search(ctx, [dict(op=rp['op'])])
     hit = [f for f in ctx.failures if f['key'] == payload.get('key')] or ctx.failures
